@@ -82,7 +82,7 @@ class ProtocolWrapper:
             if error.data != b"":
                 return await self.protocol.handle(RawData(data=error.data))
         except H2CProtocolRequiredError as error:
-            self.protocol = H2Protocol(
+            protocol = H2Protocol(
                 self.app,
                 self.config,
                 self.context,
@@ -94,11 +94,14 @@ class ProtocolWrapper:
                 self.send,
             )
             try:
-                await self.protocol.initiate(error.headers, error.settings)
+                await protocol.initiate(error.headers, error.settings)
             except (ValueError, H2ProtocolError):
                 # The HTTP2-Settings header is not a valid base64
-                # encoded SETTINGS payload, nothing can be salvaged.
+                # encoded SETTINGS payload, nothing can be salvaged
+                # (nor is anything that follows to be served).
+                await self.protocol.handle(Closed())
                 await self.send(Closed())
                 return
+            self.protocol = protocol
             if error.data != b"":
                 return await self.protocol.handle(RawData(data=error.data))
